@@ -324,8 +324,70 @@ for _n, _op in (('add', 'add'), ('subtract', 'sub'), ('multiply', 'mul'), ('divi
 HANDLERS['numpy.dot'] = h_dot
 HANDLERS['numpy.max'] = HANDLERS['numpy.amax'] = _reduce2('max')
 HANDLERS['numpy.min'] = HANDLERS['numpy.amin'] = _reduce2('min')
-HANDLERS['numpy.maximum'] = lambda ip, st, a, kw, node: app('maximum', P(a[0]), P(a[1]))
-HANDLERS['numpy.minimum'] = lambda ip, st, a, kw, node: app('minimum', P(a[0]), P(a[1]))
+def h_maxmin2(name):
+    def h(ip, st, a, kw, node):
+        r = lift(lambda x, y: app(name, P(x), P(y)), a[0], a[1])
+        return r if r is not None else app(name, P(a[0]), P(a[1]))
+    return h
+
+
+HANDLERS['numpy.maximum'] = h_maxmin2('max')
+HANDLERS['numpy.minimum'] = h_maxmin2('min')
+
+
+def h_reduce(ip, st, a, kw, node):
+    """functools.reduce(f, seq[, init]) with a known-length sequence is folded."""
+    f, seq = a[0], a[1]
+    init = a[2] if len(a) > 2 else None
+    if isinstance(seq, Tup) and len(seq) <= 8:
+        items = list(seq.items)
+        acc = init if init is not None else (items.pop(0) if items else NONE)
+        for it in items:
+            acc = ip.call_value(f, [acc, it], {}, st, node)
+        return acc
+    return app('functools.reduce', P(f), P(seq) if not isinstance(seq, Tup) else seq, *([P(init)] if init is not None else []))
+
+
+HANDLERS['functools.reduce'] = h_reduce
+
+
+def _as_seq(v):
+    if isinstance(v, Tup):
+        return list(v.items)
+    if isinstance(v, Const) and isinstance(v.value, str) and len(v.value) <= 16:
+        return [Const(ch) for ch in v.value]
+    return None
+
+
+def h_zip(ip, st, a, kw, node):
+    seqs = [_as_seq(x) for x in a]
+    if seqs and all(s is not None for s in seqs):
+        n = min(len(s) for s in seqs)
+        return Tup([Tup([s[i] for s in seqs]) for i in range(n)], 'list')
+    return app('zip', *[x if isinstance(x, (Poly, Tup, Const)) else P(x) for x in a])
+
+
+def h_enumerate(ip, st, a, kw, node):
+    seq = _as_seq(a[0]) if a else None
+    start = a[1] if len(a) > 1 else kw.get('start', Poly.const(0))
+    if seq is not None and isinstance(start, Poly) and start.const_value() is not None:
+        return Tup([Tup([start + i, x]) for i, x in enumerate(seq)], 'list')
+    return app('enumerate', *[x if isinstance(x, (Poly, Tup, Const)) else P(x) for x in a], **kw)
+
+
+def h_sum_builtin(ip, st, a, kw, node):
+    seq = a[0] if a else None
+    if isinstance(seq, Tup) and all(isinstance(i, Poly) for i in seq.items):
+        tot = a[1] if len(a) > 1 and isinstance(a[1], Poly) else Poly.const(0)
+        for i in seq.items:
+            tot = tot + i
+        return tot
+    return app('sum', *[x if isinstance(x, (Poly, Tup, Const)) else P(x) for x in a], **kw)
+
+
+HANDLERS['zip'] = h_zip
+HANDLERS['enumerate'] = h_enumerate
+HANDLERS['sum'] = h_sum_builtin
 HANDLERS['numpy.sum'] = h_sum
 HANDLERS['numpy.meshgrid'] = h_meshgrid
 HANDLERS['numpy.clip'] = h_clip
